@@ -82,6 +82,12 @@ CLAIMED["C13"] = dict(
     note="More than 5 frames, byte-level truncation and multi-field corruption outside; FCHK optimisation/IRC trajectories not covered.",
     ref="4/C13")
 
+CLAIMED["C04"] = dict(
+    text="(1) The unit constants of iodata.utils lie within 1e-7 (relative) of independently stated CODATA 2018 and 2022 values. (2) The real readers of GAMESS punch, ORCA/CP2K/Q-Chem logs, Gaussian input, MWFN, CHARMM, GROMACS, FCHK, WFN, WFX, extended XYZ and QCSchema are executed symbolically on tokenised corpus files (every decimal number of a fixture becomes a symbolic term): each element of a dimensional attribute must have the canonical form (unit factor) x (one file number) with the CODATA-consistent factor of the unit the format prescribes. (3) The layout-writer files of C03 are checked against CODATA-2018 constants with tolerance 1e-7, and writers follow from C02 (reader o writer = identity).",
+    note="Elements that are not affine in one file number are reported as undecided; molden/molekel units belong to C05; four recorded findings (masses left in amu by the GAMESS, Q-Chem and QCSchema readers, Q-Chem multipoles in Debye) that the pinned test suite prevents from being repaired.",
+    technique="symbolic execution of the real readers on tokenised corpus files; unit factors read off the canonical polynomial form of the loaded terms and compared with CODATA intervals",
+    ref="4/C04")
+
 NOT_YET = "check not built yet in this round (planned, see DESIGN.md section 4)"
 NA = {}
 
